@@ -43,6 +43,7 @@ var (
 	seed = flag.Uint64("seed", 1, "seed")
 	tier = flag.String("tier", "quick", "quick|thorough")
 	dir  = flag.String("dir", ".", "output directory")
+	corp = flag.String("corpus", "", "corpus directory (hand-picked cases, run first)")
 )
 
 func main() {
